@@ -5,15 +5,17 @@ package main
 import (
 	"bytes"
 	"context"
+	"encoding/json"
 	"fmt"
 	"sort"
-	"strconv"
 	"strings"
 	"sync"
 	"time"
+	"unicode/utf8"
 	"unsafe"
 
 	"github.com/go-faster/city"
+	"github.com/go-faster/jx"
 	clconfig "github.com/metrico/cloki-config"
 	"github.com/metrico/qryn/writer/config"
 	"github.com/metrico/qryn/writer/model"
@@ -73,7 +75,6 @@ func c03FreshCache() numbercache.ICache[uint64] {
 	c03NodeMap[name] = &model.DataDatabasesMap{}
 	return c03Cache.DB(name)
 }
-
 
 // c03Run feeds body to one of the exported parsers and collects every response.
 // ttl = value of the X-Ttl-Days header as the middleware would put it into the context.
@@ -180,54 +181,35 @@ func c03RealFingerprint(ls []c03Label) uint64 {
 	return city.CH64(unsafe.Slice((*byte)(unsafe.Pointer(&d[0])), 24))
 }
 
-// c03EncLen: byte length of the label document `encodeLabels` builds ({"k":"v",...} with strconv.Quote)
+// c03EncLen: byte length of the label document `encodeLabels` builds (a JSON object written with jx.Encoder)
 func c03EncLen(ls []c03Label) int {
-	n := 2
-	for i, l := range ls {
-		if i > 0 {
-			n++
-		}
-		n += len(strconv.Quote(l.K)) + 1 + len(strconv.Quote(l.V))
+	e := jx.Encoder{}
+	e.ObjStart()
+	for _, l := range ls {
+		e.FieldStart(l.K)
+		e.Str(l.V)
 	}
-	return n
+	e.ObjEnd()
+	return len(e.Bytes())
 }
 
-// c03ParseLabelDoc reads a document made by encodeLabels back into its pairs (nil, false if it is not one).
+// c03ParseLabelDoc reads a document made by encodeLabels back into its pairs, in order (nil, false if it is not
+// a JSON object of strings).
 func c03ParseLabelDoc(s string) ([]c03Label, bool) {
-	if len(s) < 2 || s[0] != '{' || s[len(s)-1] != '}' {
+	if !utf8.ValidString(s) {
 		return nil, false
 	}
-	s = s[1 : len(s)-1]
+	ks, vs, err := orderedObject(json.RawMessage(s))
+	if err != nil {
+		return nil, false
+	}
 	var out []c03Label
-	for len(s) > 0 {
-		k, err := strconv.QuotedPrefix(s)
-		if err != nil {
+	for i := range ks {
+		var v string
+		if json.Unmarshal(vs[i], &v) != nil {
 			return nil, false
 		}
-		s = s[len(k):]
-		if !strings.HasPrefix(s, ":") {
-			return nil, false
-		}
-		s = s[1:]
-		v, err := strconv.QuotedPrefix(s)
-		if err != nil {
-			return nil, false
-		}
-		s = s[len(v):]
-		ku, e1 := strconv.Unquote(k)
-		vu, e2 := strconv.Unquote(v)
-		if e1 != nil || e2 != nil {
-			return nil, false
-		}
-		out = append(out, c03Label{ku, vu})
-		if strings.HasPrefix(s, ",") {
-			s = s[1:]
-			if len(s) == 0 {
-				return nil, false
-			}
-		} else if len(s) > 0 {
-			return nil, false
-		}
+		out = append(out, c03Label{ks[i], v})
 	}
 	return out, true
 }
